@@ -52,6 +52,11 @@ mod imp {
             self.s.cv.notify_all();
             loop {
                 if g.abort {
+                    if std::thread::panicking() {
+                        // already unwinding (a guard's unlock hook runs in a destructor): a second panic would abort the process
+                        g.waiting[self.me] = false;
+                        return false;
+                    }
                     drop(g);
                     std::panic::resume_unwind(Box::new(Aborted));
                 }
